@@ -542,6 +542,11 @@ class OpWorld(World):
             # spec primitive: "the sequence that never notifies" (what the real code writes as reactivex.never())
             it.ctx.assume(z3.And(NEVER != smt.NONE, NEVER != ABSENT))
             return ValSV(NEVER)
+        if k == "observer" and method == "throw" and o.name == "spec_out":
+            # spec primitive: "the sequence that fails with this exception" (what the real code writes as reactivex.throw(e))
+            t = THROW(self.lift(it, args[0]))
+            it.ctx.assume(z3.And(t != smt.NONE, t != ABSENT))
+            return ValSV(t)
         if k == "observer" and method == "dispose_source" and o.name == "spec_out":
             # spec primitive: "the subscription to source i is released now"
             self.struct["spec"].append(("dispose-src", args[0]))
@@ -738,6 +743,8 @@ SEQ_REPLACE = z3.Function("seq_replace", smt.SeqVal, smt.Val, smt.Val, smt.SeqVa
 SHARED = z3.Function("shared_face", smt.Val, smt.Val, z3.BoolSort(), smt.Val)
 #: `reactivex.never()` through its contract (srcfac.py: subscribing to it calls nothing, ever): the sequence that never notifies
 NEVER = z3.Const("never_observable", smt.Val)
+#: `reactivex.throw(e)` through its contract (srcfac.py: one on_error(e), scheduled): the sequence that fails with e
+THROW = z3.Function("throw_observable", smt.Val, smt.Val)
 
 
 def shared_face(it, key, subject, shares):
@@ -1258,6 +1265,14 @@ class OpHarness:
             o = self.w.new_source(it, "never()")
             it.ctx.assume(z3.And(NEVER != smt.NONE, NEVER != ABSENT))
             o.attrs["term"] = NEVER
+            return o
+        if f.qualname in ("throw", "throw_") and f.module.name in ("reactivex", "reactivex.observable.throw") and len(args) == 1 and not kwargs \
+                and isinstance(args[0], Obj):
+            # callee contract (srcfac.py): the sequence that fails with that exception; which exception it is identifies it
+            o = self.w.new_source(it, "throw()")
+            t = THROW(self.w.lift(it, args[0]))
+            it.ctx.assume(z3.And(t != smt.NONE, t != ABSENT))
+            o.attrs["term"] = t
             return o
         c = self.callees.get((f.module.name, f.qualname))
         if c is None:
